@@ -83,6 +83,16 @@ class TracepointConfigService:
         """
         old_hash = self._current_hash
         old_config = self._tracepoint_config
+        # tracepoints that are in both configs carry on, they do not start again with a new fire count
+        previous = {}
+        for trigger in old_config:
+            for action in trigger.actions:
+                previous.setdefault((action.id, action.action_type), action)
+        for trigger in new_config:
+            for action in trigger.actions:
+                same = previous.get((action.id, action.action_type))
+                if same is not None and same == action:
+                    action.continue_from(same)
         self._last_update = ts
         self._current_hash = new_hash
         self._tracepoint_config = new_config
